@@ -272,6 +272,45 @@ def body_q_p2sc(env):
     env.holds('q_p2sc entries are 1/6, 1/4, 1/6 by subchannel type (2e-15 relative)', ok)
 
 
+def body_centroids(env):
+    """Published centroid coordinates (Subchannel.xy): each ring of cells (coolant, every wall, every bypass gap) is mapped
+    onto itself by a rotation of 60 degrees, and adjacent coolant subchannels are neighbours in space.  No symbolic
+    dimension (the coordinates are floats of one constructed bundle): enumeration over ring and duct counts."""
+    n, nduct = env.params['n_ring'], env.params['n_duct']
+    r = fixtures.make_rodded(n, nduct, byp_ff=0.05 if nduct > 1 else None)
+    sc = r.subchannel
+    xy = np.asarray(sc.xy, dtype=float)
+    nsc, nd = sc.n_sc['coolant']['total'], sc.n_sc['duct']['total']
+    P = float(r.pin_pitch)
+    c60, s60 = np.cos(np.pi / 3), np.sin(np.pi / 3)
+    R = np.array([[c60, -s60], [s60, c60]])
+    rings = [('coolant', 0, nsc)] + [('wall/bypass ring %d' % w, nsc + w * nd, nsc + (w + 1) * nd) for w in range(2 * nduct - 1)]
+    env.holds('coordinates exist for every coolant, wall and bypass cell', xy.shape[0] == nsc + (2 * nduct - 1) * nd)
+    for name, a, b in rings:
+        pts = xy[a:b]
+        img = pts @ R.T
+        ok = True
+        used = set()
+        for p_ in img:
+            d = np.hypot(pts[:, 0] - p_[0], pts[:, 1] - p_[1])
+            j = int(np.argmin(d))
+            ok = ok and d[j] < 1e-6 * P and j not in used
+            used.add(j)
+        env.holds('%s: centroids are six-fold symmetric' % name, bool(ok), key='centroids_not_symmetric')
+    adj = sc.sc_adj
+    far = 0
+    for i in range(nsc):
+        for j in adj[i][:3]:
+            if 0 <= j < nsc and np.hypot(*(xy[i] - xy[j])) > 1.1 * P:
+                far += 1
+    env.holds('adjacent coolant subchannels are less than 1.1 pin pitches apart', far == 0, key='centroids_disagree_with_adjacency')
+    # wall and bypass cells sit outside the coolant cell they are attached to, ring by ring further out
+    for c in range(nd):
+        rad = [float(np.hypot(*xy[nsc - nd + c]))] + [float(np.hypot(*xy[nsc + w * nd + c])) for w in range(2 * nduct - 1)]
+        env.holds('cell column %d: coolant, wall and bypass centroids lie further out ring by ring' % c,
+                  all(rad[k + 1] > rad[k] for k in range(len(rad) - 1)), key='centroids_disagree_with_adjacency')
+
+
 def instances(tier):
     inst = []
     rings = (2, 3, 4, 7) if tier == 'quick' else tuple(range(2, 21))
@@ -291,6 +330,10 @@ def instances(tier):
                 continue          # multi-duct tables beyond 8 rings take tens of minutes each (DESIGN 7)
             inst.append(dict(label='topology[rings=%d,ducts=%d]' % (n, nduct), body=body_topology,
                              params={'n_ring': n, 'n_duct': nduct}, timeout_ms=600000, check_vacuity=False))
+    for n in ((2, 3, 5) if tier == 'quick' else (2, 3, 4, 5, 7, 9, 12)):
+        for nduct in (1, 2, 3):
+            inst.append(dict(label='centroids[rings=%d,ducts=%d]' % (n, nduct), body=body_centroids, params={'n_ring': n, 'n_duct': nduct},
+                             check_vacuity=False))
     for n in (2, 5):
         inst.append(dict(label='heat-fractions[rings=%d]' % n, body=body_q_p2sc, params={'n_ring': n}, check_vacuity=False))
     return inst
@@ -309,7 +352,7 @@ def main():
         bounds={'ring counts': '2,3,4,7 geometry; 2..6,8 topology (quick) / geometry 2..20, topology 2..14 with one duct and 2..8 with 2-3 ducts (thorough)', 'ducts': '1..3',
                 'dimensions': 'all admissible positive pitch/diameter/wire/wall/bypass/clearance values (pins fit, wire fits)',
                 'SE2 flag': 'on/off', 'wire': 'with / without'},
-        outside=['centroid coordinates (xy) vs adjacency and six-fold symmetry: used numerically by C07 only, not claimed here',
+        outside=['centroid coordinates: six-fold symmetry and agreement with the adjacency are concrete checks per enumerated bundle (centroids[...] instances: no symbolic dimension)',
                  'positivity of the wire-wrapped flow areas for extreme wire angles (best-effort obligation)'],
         level_assumptions=['pin_pitch >= pin_diameter + wire_diameter; duct inner flat-to-flat >= sqrt3 (n-1) P + D + 2 Dw (constructor check)',
                            'sqrt3 in (1.732, 1.7321) and sqrt3^2 = 3; 3.14159 < pi < 3.1416; the float literals _sqrt3 etc. are replaced by these symbols'])
